@@ -52,6 +52,18 @@ def known_findings():
     return json.load(open(p))
 
 
+def claimed_level(prop):
+    """the level MANIFEST.json claims for the property (evidence reports that level only when every obligation is discharged)"""
+    try:
+        m = json.load(open(os.path.join(VERIF, "MANIFEST.json")))
+        for c in m.get("checks", []):
+            if c["property_id"] == prop:
+                return c["level_claimed"]["category"]
+    except (OSError, KeyError, ValueError):
+        pass
+    return "other"
+
+
 def slug(s):
     return re.sub(r"[^A-Za-z0-9_.-]+", "_", s)[:120]
 
@@ -345,7 +357,7 @@ def check(prop, tier, only_obligation=None):
     trusted.add("A-EXTRACT: extraction rules R0-R8 of DESIGN.md 3.1 preserve meaning (log statements dropped; named return value; declared rewrites listed per function)")
     ev = {
         "property_id": prop, "tier": tier, "seed": seed,
-        "level": "proof" if n_ob and n_ob == n_dis and not undecided else "other",
+        "level": claimed_level(prop) if n_ob and n_ob == n_dis and not undecided else "other",
         "coverage": {
             "obligations": n_ob, "discharged": n_dis,
             "checker_cmd": " ; ".join(sorted({c for r in results for c in r["cmds"][:1]})) or "none",
